@@ -144,6 +144,12 @@ void harness(void) {
           int k = reg_find(sv[s].as.obj);
           if (k >= 0) { g_reg[k].extra = ex[s]; ((VmHeapHeader *)g_reg[k].p)->ref_count += ex[s]; } } }
 
+#ifdef SYM_FRAME
+    /* hostile bytecode can drive a frame's base above the stack top (POP has no per-frame floor, CALL with
+     * arity > stack_size wraps the new base): the current frame's base and local count are arbitrary */
+    { ND(uint32_t, in_base); ND(uint16_t, in_lc);
+      vs_vm.frames[vs_vm.frame_count - 1].stack_base = in_base; vs_vm.frames[vs_vm.frame_count - 1].local_count = in_lc; }
+#endif
     /* ---------- one instruction ---------- */
     nl_verif_fuel = 2;
     VmTrap trap = vm_core_execute(&vs_vm);
